@@ -307,7 +307,7 @@ Definition family (pid : nat) : list nat :=
   | 5 => [51; 52; 53; 54; 55; 42]
   | 6 => [61; 62; 63; 66; 67]
   | 7 => [7; 71; 72; 73]
-  | 12 => [12; 40]
+  | 12 => [12; 40; 207]
   | 17 => [17; 171; 172; 173]
   | 19 => [19; 191; 192]
   | 20 => [201; 202; 203; 205; 207; 40]
